@@ -249,3 +249,56 @@ mod tests {
         assert_eq!(Row(vec![0, 0]), frequency_counter.matrix[3]);
     }
 }
+
+#[cfg(cached_verif)]
+pub mod verif_row {
+    use super::Row;
+
+    pub fn increment_at(bytes: &[u8], position: u64) -> Vec<u8> {
+        let mut row = Row(bytes.to_vec());
+        row.increment_at(position);
+        row.0
+    }
+
+    pub fn get_at(bytes: &[u8], position: u64) -> u8 {
+        Row(bytes.to_vec()).get_at(position)
+    }
+
+    pub fn half_counters(bytes: &[u8]) -> Vec<u8> {
+        let mut row = Row(bytes.to_vec());
+        row.half_counters();
+        row.0
+    }
+
+    pub fn next_power_2(counters: u64) -> u64 {
+        super::FrequencyCounter::next_power_2(counters)
+    }
+}
+
+#[cfg(cached_verif)]
+pub struct VerifFrequencyCounter(pub(crate) FrequencyCounter);
+
+#[cfg(cached_verif)]
+impl VerifFrequencyCounter {
+    pub fn new(counters: TotalCounters) -> Self { VerifFrequencyCounter(FrequencyCounter::new(counters)) }
+    pub fn with_seeds(counters: TotalCounters, seeds: [u64; ROWS]) -> Self {
+        let mut counter = FrequencyCounter::new(counters);
+        counter.seeds = seeds;
+        VerifFrequencyCounter(counter)
+    }
+    pub fn increment(&mut self, key_hash: KeyHash) { self.0.increment(key_hash) }
+    pub fn estimate(&self, key_hash: KeyHash) -> FrequencyEstimate { self.0.estimate(key_hash) }
+    pub fn reset(&mut self) { self.0.reset() }
+    pub fn clear(&mut self) { self.0.clear() }
+    pub fn rows(&self) -> Vec<Vec<u8>> { self.0.verif_rows() }
+    pub fn seeds(&self) -> Vec<u64> { self.0.seeds.to_vec() }
+    pub fn total_counters(&self) -> u64 { self.0.total_counters }
+}
+
+#[cfg(cached_verif)]
+impl FrequencyCounter {
+    pub(crate) fn verif_rows(&self) -> Vec<Vec<u8>> { self.matrix.iter().map(|row| row.0.clone()).collect() }
+    pub(crate) fn verif_seeds(&self) -> Vec<u64> { self.seeds.to_vec() }
+    pub(crate) fn verif_set_seeds(&mut self, seeds: [u64; ROWS]) { self.seeds = seeds; }
+    pub(crate) fn verif_total_counters(&self) -> u64 { self.total_counters }
+}
